@@ -102,11 +102,11 @@ WithSinks(g, m) == [g EXCEPT !.sinks = IF m = "all" THEN [i \in 1..Len(g.nodes) 
                                        ELSE IF m = "all_rev" THEN [i \in 1..Len(g.nodes) |-> Len(g.nodes) + 1 - i]
                                        ELSE IF m = "first_terms" THEN <<1>> \o SelectSeq(g.sinks, LAMBDA i : i # 1) ELSE @]
 SinkShapes == {sh \in BaseShapes : sh.n >= 2 /\ sh.n <= FullN /\ \E j \in 1..sh.n : sh.ins[j] # <<>>}
-\* (fuse: callbacks that build a new node; one that recycles the parent object is only legitimate when nothing else uses the
-\*  parent, and fuse does not count "is a listed sink" as a use)
+\* (fuse: being a listed sink is a use of a node, so a listed node is never offered to the callback as the parent to replace;
+\*  the recycling callback is judged here too)
 SinkCasesC == {[op |-> "copy", g |-> WithSinks(MkGraph(sh, Unique, Ident, TRUE), m)] : sh \in SinkShapes, m \in SinkModes}
 SinkCasesR == {[op |-> "rename", fn |-> f, g |-> WithSinks(MkGraph(sh, Unique, Ident, TRUE), m)] : sh \in SinkShapes, m \in SinkModes, f \in {"prefix"}}
-SinkCasesF == {[op |-> "fuse", cb |-> cb, g |-> WithSinks(MkGraph(sh, Unique, Ident, TRUE), m)] : sh \in SinkShapes, m \in SinkModes, cb \in {"new", "linear"}}
+SinkCasesF == {[op |-> "fuse", cb |-> cb, g |-> WithSinks(MkGraph(sh, Unique, Ident, TRUE), m)] : sh \in SinkShapes, m \in SinkModes, cb \in {"new", "inplace", "linear"}}
 SinkCasesD == {[op |-> "dedup", g |-> WithSinks(MkGraph(sh, Same, [i \in 1..sh.n |-> 1], TRUE), m)] : sh \in SinkShapes, m \in SinkModes}
 SinkCasesS == {[op |-> "split", key |-> k, g |-> WithSinks(MkGraph(sh, Unique, Ident, TRUE), m)] :
                   sh \in SinkShapes, m \in SinkModes, k \in {[i \in 1..3 |-> i % 2], [i \in 1..3 |-> i - 1]}}
